@@ -18,8 +18,14 @@ def run_xcp(binary, args, cwd, env=None, strace=None, timeout=60, nofile=None, u
     cmd = [binary] + list(args)
     if strace is not None:
         out = strace["out"]
+        tset = strace.get("trace", TRACE_SET)
+        have = set(tset.split(","))
+        for inj in strace.get("inject", []):          # strace only injects into calls it traces
+            for name in inj.split(":")[0].split(","):
+                if name and name not in have:
+                    tset += "," + name; have.add(name)
         sc = ["strace", "-f", "-y", "-s", str(strace.get("strsize", 256)), "-o", out,
-              "-e", "trace=" + strace.get("trace", TRACE_SET), "-e", "signal=none"]
+              "-e", "trace=" + tset, "-e", "signal=none"]
         for inj in strace.get("inject", []):
             sc += ["-e", "inject=" + inj]
         sc += strace.get("extra", [])
